@@ -144,6 +144,45 @@ func (g *Global) directWrites(fn *ssa.Function) map[string]bool {
 	return out
 }
 
+// directWritesExt: what the function writes as seen from outside its literal family:
+// a store through a captured variable that only the family can reach (captureFamily)
+// is invisible to every other function.
+func (g *Global) directWritesExt(fn *ssa.Function) map[string]bool {
+	if fn.Parent() == nil {
+		return g.direct[fn]
+	}
+	private := false
+	for _, fv := range fn.FreeVars {
+		if g.captureFamily(fv) != nil {
+			private = true
+		}
+	}
+	if !private {
+		return g.direct[fn]
+	}
+	out := map[string]bool{}
+	if g.cs != nil {
+		if fc := g.cs.Funcs[fnID(fn)]; fc != nil {
+			for _, s := range fc.Sites {
+				if s.Kind == "ghost-after" {
+					out["G|"+s.C.Label] = true
+				}
+			}
+		}
+	}
+	for _, b := range fn.Blocks {
+		for _, in := range b.Instrs {
+			if st, ok := in.(*ssa.Store); ok {
+				if fv, ok := addrRoot(st.Addr).(*ssa.FreeVar); ok && g.captureFamily(fv) != nil {
+					continue
+				}
+			}
+			g.instrWrites(in, out, true)
+		}
+	}
+	return out
+}
+
 // instrWrites adds the keys an instruction may write directly (not through
 // callees with bodies). skipFresh drops stores rooted at the function's own
 // allocations.
@@ -252,6 +291,7 @@ func (g *Global) computeFrames() {
 		}
 	}
 	words := (len(keyName) + 63) / 64
+	bitsExt := map[*ssa.Function][]uint64{}
 	for _, fn := range g.allFns {
 		b := make([]uint64, words)
 		for k := range g.direct[fn] {
@@ -259,6 +299,20 @@ func (g *Global) computeFrames() {
 			b[id/64] |= 1 << uint(id%64)
 		}
 		bits[fn] = b
+		be := b
+		if fn.Parent() != nil && !isPurePkg(fnPkgPath(fn)) {
+			if de := g.directWritesExt(fn); len(de) != len(g.direct[fn]) {
+				be = make([]uint64, words)
+				for k := range de {
+					id := keyID[k]
+					be[id/64] |= 1 << uint(id%64)
+				}
+			}
+		}
+		if &be[0] == &b[0] {
+			be = append([]uint64(nil), b...)
+		}
+		bitsExt[fn] = be
 	}
 	// callers map over CHA edges
 	callers := map[*ssa.Function]map[*ssa.Function]bool{}
@@ -310,41 +364,79 @@ func (g *Global) computeFrames() {
 			addEdge(callee, fn)
 		}
 	}
-	work := make([]*ssa.Function, 0, len(g.allFns))
-	inWork := map[*ssa.Function]bool{}
-	for _, fn := range g.allFns {
-		work = append(work, fn)
-		inWork[fn] = true
-	}
-	for len(work) > 0 {
-		fn := work[len(work)-1]
-		work = work[:len(work)-1]
-		inWork[fn] = false
-		fb := bits[fn]
-		if fb == nil {
-			continue
+	fix := func(bits map[*ssa.Function][]uint64) {
+		work := make([]*ssa.Function, 0, len(g.allFns))
+		inWork := map[*ssa.Function]bool{}
+		for _, fn := range g.allFns {
+			work = append(work, fn)
+			inWork[fn] = true
 		}
-		for caller := range callers[fn] {
-			cb := bits[caller]
-			if cb == nil {
-				cb = make([]uint64, words)
-				bits[caller] = cb
+		for len(work) > 0 {
+			fn := work[len(work)-1]
+			work = work[:len(work)-1]
+			inWork[fn] = false
+			fb := bits[fn]
+			if fb == nil {
+				continue
 			}
-			changed := false
-			for i, w := range fb {
-				if cb[i]|w != cb[i] {
-					cb[i] |= w
-					changed = true
+			for caller := range callers[fn] {
+				cb := bits[caller]
+				if cb == nil {
+					cb = make([]uint64, words)
+					bits[caller] = cb
+				}
+				changed := false
+				for i, w := range fb {
+					if cb[i]|w != cb[i] {
+						cb[i] |= w
+						changed = true
+					}
+				}
+				if changed && !inWork[caller] {
+					work = append(work, caller)
+					inWork[caller] = true
 				}
 			}
-			if changed && !inWork[caller] {
-				work = append(work, caller)
-				inWork[caller] = true
-			}
 		}
 	}
+	fix(bits)
+	fix(bitsExt)
 	g.frameBits = bits
+	g.frameBitsExt = bitsExt
 	g.keyName = keyName
+}
+
+// topFunc: the declared function a (possibly nested) literal belongs to.
+func topFunc(fn *ssa.Function) *ssa.Function {
+	for fn.Parent() != nil {
+		fn = fn.Parent()
+	}
+	return fn
+}
+
+// frameFor: the callee's write set as the caller sees it: complete when the callee is a
+// literal of the caller's own family, otherwise without the writes to variables that are
+// private to the callee's literal family.
+func (g *Global) frameFor(caller, callee *ssa.Function) map[string]bool {
+	if caller != nil && callee.Parent() != nil && topFunc(caller) == topFunc(callee) {
+		return g.frameOf(callee)
+	}
+	if g.framesExt == nil {
+		g.framesExt = map[*ssa.Function]map[string]bool{}
+	}
+	if f, ok := g.framesExt[callee]; ok {
+		return f
+	}
+	f := map[string]bool{}
+	for i, w := range g.frameBitsExt[callee] {
+		for w != 0 {
+			b := bits.TrailingZeros64(w)
+			f[g.keyName[i*64+b]] = true
+			w &^= 1 << uint(b)
+		}
+	}
+	g.framesExt[callee] = f
+	return f
 }
 
 // frameOf materialises the write set of fn.
@@ -399,7 +491,7 @@ func (g *Global) siteFrame(site ssa.CallInstruction) map[string]bool {
 		if isPurePkg(fnPkgPath(callee)) {
 			for _, a := range c.Args {
 				if cb := closureFn(a); cb != nil {
-					for k := range g.frameOf(cb) {
+					for k := range g.frameFor(site.Parent(), cb) {
 						out[k] = true
 					}
 				}
@@ -409,7 +501,7 @@ func (g *Global) siteFrame(site ssa.CallInstruction) map[string]bool {
 		if isAtomicFn(callee) {
 			return out
 		}
-		for k := range g.frameOf(callee) {
+		for k := range g.frameFor(site.Parent(), callee) {
 			out[k] = true
 		}
 		return out
@@ -419,7 +511,7 @@ func (g *Global) siteFrame(site ssa.CallInstruction) map[string]bool {
 	}
 	if !c.IsInvoke() {
 		if sc := staticClosure(c.Value); sc != nil {
-			for k := range g.frameOf(sc) {
+			for k := range g.frameFor(site.Parent(), sc) {
 				out[k] = true
 			}
 			return out
@@ -429,7 +521,7 @@ func (g *Global) siteFrame(site ssa.CallInstruction) map[string]bool {
 		if isAtomicFn(callee) || isPurePkg(fnPkgPath(callee)) {
 			continue
 		}
-		for k := range g.frameOf(callee) {
+		for k := range g.frameFor(site.Parent(), callee) {
 			out[k] = true
 		}
 	}
